@@ -93,6 +93,16 @@ def run_family(prop, tier, seed, replay, origin="writer", mc_cfg=None, level="mo
                     case_list.append({"k": "case", "origin": "indep", "fmt": "tar", "tf": "pbf", "tc": "gzip", "tiles": tiles,
                                       "choices": {"dot_prefix": dot, "dir_members": 0, "ustar": 0, "reverse": 0, "interleave": 1},
                                       "directed": "tar_level_runs"})
+        # directed (independent encoder): a PMTiles archive whose directory has a RUN (ids 0..4: level 0 and level 1 share one
+        # payload) followed, more than 2^32 ids later, by a small patch on level 16 (ids 2^32+4 ..): the tile just before the patch
+        # (id 2^32+3, an edge neighbour that the lookups probe) is 2^32+3 ids away from the run -- modulo 2^32 that is 3, inside it
+        if prop in ("C03", "C16"):
+            for rl in (1, 0):
+                case_list.append({"k": "case", "origin": "indep", "fmt": "pmtiles", "tf": "pbf", "tc": "gzip",
+                                  "tiles": [[0, 0, 0, 1], [1, 0, 0, 1], [1, 0, 1, 1], [1, 1, 1, 1], [1, 1, 0, 1], [16, 65535, 65532, 2],
+                                            [16, 65535, 65531, 3], [16, 65535, 65530, 4], [16, 65534, 65530, 5]],
+                                  "choices": {"run_lengths": rl, "share": rl, "leaf_levels": 0, "leaf_size": 2, "mixed_root": 0, "internal": "gzip",
+                                              "unclustered": 0, "type_unknown": 0}, "directed": "pmtiles_id_gap_2_32"})
         with open(cases, "w") as f:
             for c in case_list:
                 f.write(json.dumps(c) + "\n")
